@@ -45,7 +45,7 @@ FLOORS = {"quick": {"steps_compared": 2500, "digests_compared": 2500,
 N_SEQ = {"quick": 5120, "thorough": 150000}
 KINDS = ["valid", "valid", "syntax", "matching", "conversion", "sectiondt",
          "import", "import", "import-broken", "override", "mutate",
-         "mutate"]
+         "mutate", "world-changes", "validator"]
 
 SDT_TYPE = {"kind": "section", "name": "sdt", "keytype": None,
             "datatype": None, "raw_datatype": "zcverif_dt.fam.needs_marker",
@@ -53,6 +53,12 @@ SDT_TYPE = {"kind": "section", "name": "sdt", "keytype": None,
                 {"kind": "key", "name": "marker", "datatype": "string",
                  "required": False, "handler": None, "attribute": None,
                  "default": None, "defaults": []},
+                {"kind": "key", "name": "stamp", "datatype": "epoch",
+                 "required": False, "handler": None, "attribute": None,
+                 "default": "d0", "defaults": []},
+                {"kind": "multikey", "name": "stamps", "datatype": "epoch",
+                 "required": False, "handler": None, "attribute": None,
+                 "default": None, "defaults": ["m1", "m2"]},
                 {"kind": "multikey", "name": "items", "datatype": "string",
                  "required": False, "handler": None, "attribute": None,
                  "default": None, "defaults": ["d1", "d2"]},
@@ -117,6 +123,16 @@ class World:
 
 def make_step(rng, w, kind):
     """-> dict(kind, text, overrides)"""
+    if kind == "world-changes":
+        return {"kind": kind, "overrides": []}
+    if kind == "validator":
+        a = make_step(rng, w, "import")["text"]
+        b = "".join(l + "\n" for l in a.split("\n")
+                    if l and not l.lstrip().startswith("%import"))
+        if rng.random() < 0.3:
+            b = make_step(rng, w, rng.choice(["valid", "matching"]))["text"]
+        return {"kind": kind, "overrides": [],
+                "runs": [[a], [b], [a, b] if rng.random() < 0.7 else [b, a]]}
     g = texts.Gen(rng, w.res, p_bad_value=0.0)
     tree = g.instance()
     step = {"kind": kind, "overrides": []}
@@ -177,6 +193,30 @@ def make_step(rng, w, kind):
 mutate = outcome.poison
 
 
+def validator_status(ctx, w, file_texts):
+    import contextlib
+    import gc
+    from ZConfig import validator
+    d = os.path.join(ctx.tmp, "c13val")
+    os.makedirs(d, exist_ok=True)
+    sp = os.path.join(d, "schema.xml")
+    with open(sp, "w", encoding="utf-8") as f:
+        f.write(w.xml)
+    args = ["-s", sp]
+    for n, t in enumerate(file_texts):
+        fp = os.path.join(d, "f%d.conf" % n)
+        with open(fp, "w", encoding="utf-8") as f:
+            f.write(t)
+        args.append(fp)
+    try:
+        with contextlib.redirect_stderr(io.StringIO()):
+            rc = validator.main(args)
+    except BaseException as e:  # noqa
+        rc = "%s: %s" % (type(e).__name__, e)
+    gc.collect()
+    return rc
+
+
 _HEX = None
 
 
@@ -200,7 +240,30 @@ def run_history(ctx, w, steps, record=True):
     d_prev = dg.digest(schema)
     last = None
     for i, st in enumerate(steps):
-        if st["kind"] == "mutate":
+        if st["kind"] == "world-changes":
+            # what the datatypes look at has changed (for every schema
+            # object alike): conversions are made when a text is loaded
+            import zcverif_dt
+            zcverif_dt.EPOCH[0] += 1
+            if record:
+                res.count("world_changes")
+            o = None
+        elif st["kind"] == "validator":
+            # the validator script over several files, each a load of its
+            # own: what one file %import-ed is not there for the next
+            rcs = [validator_status(ctx, w, fs) for fs in st["runs"]]
+            if record:
+                res.count("validator_runs", len(rcs))
+            want = max(rcs[0], rcs[1]) if all(
+                isinstance(r, int) for r in rcs[:2]) else None
+            if rcs[2] != want:
+                problems.append(("outcome-depends-on-history", i,
+                                 ["validator status", want,
+                                  "= worst of the files one at a time",
+                                  rcs[:2]],
+                                 ["validator status", rcs[2]]))
+            o = None
+        elif st["kind"] == "mutate":
             if last is not None and last[0] == "ok":
                 m = mutate(last[3][0])
                 if record:
@@ -270,6 +333,8 @@ def run_case(ctx, w, steps):
     res.sig(",".join(s["kind"][:4] for s in steps))
     res.sample("history", {"kinds": [s["kind"] for s in steps],
                            "first_text": steps[0].get("text", "")[:300]}, 2)
+    import zcverif_dt
+    zcverif_dt.EPOCH[0] = 0
     problems = run_history(ctx, w, steps)
     if not problems:
         return
